@@ -6,6 +6,7 @@ let () =
   let dbg = not (Array.length Sys.argv > 2 && Sys.argv.(2) = "release") in
   let handle : string list -> string = match level with
     | "codec" -> Lvl_codec.handle dbg
+    | "builder" -> Lvl_builder.handle dbg
     (* LEVELS: one line per level, keep this marker *)
     | _ -> (fun _ -> "badlevel") in
   (try
